@@ -1572,7 +1572,11 @@ class Field(SupportComplexDataType):
 
     def _get_children(self, trailing=False):
         if self.datatype == 'varies':
-            children = [self.children.indexes['VARIES_{0}'.format(i + 1)] for i in xrange(len(self.children))]
+            # the components present need not be VARIES_1..VARIES_n without gaps (f.varies_2 = 'x'): walk up
+            # to the highest position present, an absent one encodes as empty
+            positions = [int(n[7:]) for n in self.children.indexes if n.startswith('VARIES_')]
+            children = [self.children.indexes.get('VARIES_{0}'.format(i + 1), None)
+                        for i in xrange(max(positions) if positions else 0)]
             children = _remove_trailing(children)
             children.extend([[c] for c in self.children if c.is_unknown()])
             return children
